@@ -280,10 +280,14 @@ func (ii *invertedIndex) put(key, seriesID uint32) {
 }
 
 func (ii *invertedIndex) getSeriesIDs(key uint32) (*roaring.Bitmap, error) {
+	result := roaring.New()
+	// NOTE: must read memory before getting snapshot, flush commits the kv store then clears immutable store,
+	// if not, data moved by a flush between the two reads is in neither of them.
+	ii.findSeriesIDsByKeyFromMem(key, result)
+
 	snapshot := ii.family.GetSnapshot()
 	defer snapshot.Close()
 
-	result := roaring.New()
 	seriesIDs := roaring.New()
 	if err := snapshot.Load(key, func(value []byte) error {
 		if _, err := bitmapUnmarshal(seriesIDs, value); err != nil {
@@ -295,15 +299,20 @@ func (ii *invertedIndex) getSeriesIDs(key uint32) (*roaring.Bitmap, error) {
 	}); err != nil {
 		return nil, err
 	}
-	ii.findSeriesIDsByKeyFromMem(key, result)
 	return result, nil
 }
 
 func (ii *invertedIndex) findSeriesIDsByKeys(keys *roaring.Bitmap) (*roaring.Bitmap, error) {
+	result := roaring.New()
+	// NOTE: must read memory before getting snapshot(same as getSeriesIDs)
+	memIt := keys.Iterator()
+	for memIt.HasNext() {
+		ii.findSeriesIDsByKeyFromMem(memIt.Next(), result)
+	}
+
 	snapshot := ii.family.GetSnapshot()
 	defer snapshot.Close()
 
-	result := roaring.New()
 	seriesIDs := roaring.New()
 	it := keys.Iterator()
 	for it.HasNext() {
@@ -318,7 +327,6 @@ func (ii *invertedIndex) findSeriesIDsByKeys(keys *roaring.Bitmap) (*roaring.Bit
 		}); err != nil {
 			return nil, err
 		}
-		ii.findSeriesIDsByKeyFromMem(key, result)
 	}
 	return result, nil
 }
@@ -423,14 +431,16 @@ func (fi *forwardIndex) put(tagKeyID, tagValueID, seriesID uint32) {
 }
 
 func (fi *forwardIndex) findSeriesIDsForTag(tagKeyID tag.KeyID) (*roaring.Bitmap, error) {
-	snapshot := fi.family.GetSnapshot()
-	defer snapshot.Close()
-
 	result := roaring.New()
 	// read data from mem
+	// NOTE: must read memory before getting snapshot, flush commits the kv store then clears immutable store,
+	// if not, data moved by a flush between the two reads is in neither of them.
 	fi.loadSeriesIDsInMem(tagKeyID, func(tagIndex *imap.IntMap[uint32]) {
 		result.Or(tagIndex.Keys())
 	})
+
+	snapshot := fi.family.GetSnapshot()
+	defer snapshot.Close()
 
 	// read data from kv store
 	// try to get tag key id from kv store
@@ -455,12 +465,18 @@ func (fi *forwardIndex) findSeriesIDsForTag(tagKeyID tag.KeyID) (*roaring.Bitmap
 
 // GetGroupingContext returns the context of group by
 func (fi *forwardIndex) GetGroupingContext(ctx *flow.ShardExecuteContext) error {
-	snapshot := fi.family.GetSnapshot()
-	defer snapshot.Close()
-
 	scannerMap := make(map[tag.KeyID][]flow.GroupingScanner)
 	tagKeyIDs := ctx.StorageExecuteCtx.GroupByTagKeyIDs
 	seriesIDs := ctx.SeriesIDsAfterFiltering
+	// NOTE: must read memory of all tag keys before getting snapshot(same as findSeriesIDsForTag)
+	memScannerMap := make(map[tag.KeyID][]flow.GroupingScanner)
+	for _, tagKeyID := range tagKeyIDs {
+		memScannerMap[tagKeyID] = fi.getMemGroupingScanners(tagKeyID, seriesIDs)
+	}
+
+	snapshot := fi.family.GetSnapshot()
+	defer snapshot.Close()
+
 	finalSeriesIDs := seriesIDs.Clone()
 	defer func() {
 		// maybe filtering some series ids that is result of filtering.
@@ -469,7 +485,7 @@ func (fi *forwardIndex) GetGroupingContext(ctx *flow.ShardExecuteContext) error 
 	}()
 	for _, tagKeyID := range tagKeyIDs {
 		// get grouping scanners by tag key
-		scanners, err := fi.getGroupingScanners(tagKeyID, seriesIDs, snapshot)
+		scanners, err := fi.getGroupingScanners(tagKeyID, seriesIDs, snapshot, memScannerMap[tagKeyID])
 		if err != nil {
 			return err
 		}
@@ -494,18 +510,10 @@ func (fi *forwardIndex) getGroupingScanners(
 	tagKeyID tag.KeyID,
 	seriesIDs *roaring.Bitmap,
 	snapshot version.Snapshot,
+	memScanners []flow.GroupingScanner,
 ) ([]flow.GroupingScanner, error) {
-	var result []flow.GroupingScanner
-	// read data from mem
-	fi.loadSeriesIDsInMem(tagKeyID, func(tagIndex *imap.IntMap[uint32]) {
-		// check reader if it has series ids(after filtering)
-		finalSeriesIDs := roaring.FastAnd(seriesIDs, tagIndex.Keys())
-		if finalSeriesIDs.IsEmpty() {
-			// not found
-			return
-		}
-		result = append(result, &memGroupingScanner{forward: tagIndex, withLock: fi.withLock})
-	})
+	// data from mem(read before getting snapshot)
+	result := memScanners
 
 	// read data from kv store
 	// try to get tag key id from kv store
@@ -525,6 +533,20 @@ func (fi *forwardIndex) getGroupingScanners(
 		result = append(result, scanners...)
 	}
 	return result, nil
+}
+
+// getMemGroupingScanners returns the grouping scanner list of mutable/immutable store for tag key, need match series ids
+func (fi *forwardIndex) getMemGroupingScanners(tagKeyID tag.KeyID, seriesIDs *roaring.Bitmap) (result []flow.GroupingScanner) {
+	fi.loadSeriesIDsInMem(tagKeyID, func(tagIndex *imap.IntMap[uint32]) {
+		// check reader if it has series ids(after filtering)
+		finalSeriesIDs := roaring.FastAnd(seriesIDs, tagIndex.Keys())
+		if finalSeriesIDs.IsEmpty() {
+			// not found
+			return
+		}
+		result = append(result, &memGroupingScanner{forward: tagIndex, withLock: fi.withLock})
+	})
+	return result
 }
 
 // loadSeriesIDsInMem loads series ids from mutable/immutable store
